@@ -5,7 +5,7 @@ Require Import List String Ascii NArith ZArith Bool Lia.
 Import ListNotations.
 From MptV Require Import C20.LayoutTypes C20.LayoutConv C20.Gen_Layout C20.LayoutModel C20.LayoutSpec
   C20.LayoutLemmas C20.LayoutAbs C20.LayoutFields C20.LayoutRefineAxis C20.LayoutRefineGraph C20.LayoutRefine
-  C20.LayoutSetProp C20.LayoutCxx C20.LayoutCxxModel C20.LayoutCxxSpec.
+  C20.LayoutSetProp C20.LayoutHistory C20.LayoutCxx C20.LayoutCxxModel C20.LayoutCxxSpec C20.LayoutCopy.
 Local Open Scope Z_scope.
 
 (* ---- constructors with arguments ---- *)
@@ -62,8 +62,13 @@ Proof.
 Qed.
 
 (* convert() and the graph's item handling leave the objects as they are *)
-Lemma xstep_pure st p :
-  match p with XConv _ _ | XGadd _ _ _ | XGitem _ _ _ _ _ _ | XGbind _ | XGtr _ | XClone _ | XLreset _ => True | _ => False end ->
+Definition pure_op (p : xop) : Prop :=
+  match p with
+  | XConv _ _ | XGadd _ _ _ | XGitem _ _ _ _ _ _ | XGbind _ | XGtr _ | XClone _ | XLreset _
+  | XGbindl _ | XGbindo _ | XGview _ | XGcyc _ _ | XGscyc _ _ | XTot _ | XPinfo _ _ => True
+  | _ => False
+  end.
+Lemma xstep_pure st p : pure_op p ->
   xa (fst (xstep st p)) = xa st /\ xb (fst (xstep st p)) = xb st.
 Proof.
   intros H. destruct p; try contradiction; cbn [xstep].
@@ -75,39 +80,71 @@ Proof.
   - destruct tb; [destruct (xb st) eqn:E|destruct (xa st) eqn:E]; cbn; auto;
       match goal with |- context [graph_bind ?g ?x] => destruct (graph_bind g x) end; cbn; rewrite ?E; auto.
   - destruct tb; [destruct (xb st) eqn:E|destruct (xa st) eqn:E]; cbn; rewrite ?E; auto.
+  - destruct tb; [destruct (xb st) eqn:E|destruct (xa st) eqn:E]; cbn; auto;
+      match goal with |- context [graph_bind ?g ?x] => destruct (graph_bind g x) end; cbn; rewrite ?E; auto.
+  - destruct tb; [destruct (xb st) eqn:E|destruct (xa st) eqn:E]; cbn; auto;
+      match goal with |- context [graph_bind_rel ?g ?x ?c] => destruct (graph_bind_rel g x c) end; cbn; rewrite ?E; auto.
+  - destruct tb; [destruct (xb st) eqn:E|destruct (xa st) eqn:E]; cbn; auto.
+  - destruct tb; [destruct (xb st) eqn:E|destruct (xa st) eqn:E]; cbn; auto;
+      match goal with |- context [cyc_index ?n ?q] => destruct (cyc_index n q) end; cbn; auto;
+      match goal with |- context [nth ?i ?l None] => destruct (nth i l None) end; cbn; rewrite ?E; auto.
+  - destruct tb; [destruct (xb st) eqn:E|destruct (xa st) eqn:E]; cbn; auto;
+      match goal with |- context [cyc_index ?n ?q] => destruct (cyc_index n q) end; cbn; rewrite ?E; auto.
+  - cbn; auto.
+  - cbn; auto.
 Qed.
 
 (* ---- layout::graph::bind ---- *)
-(* a failed bind (an item named by "axes" / "worlds" is missing) restores the bound lists *)
-Lemma bind_failure g x r x' : graph_bind g x = (r, x') -> r < 0 -> x' = x.
+(* a failed bind (an item named by "axes" / "worlds" is missing, here or in a graph among the items) restores the
+   bound lists; with any relation (bind(0, ..): the own items, gbindo: the other graph's items) *)
+Lemma bind_failure_rel g x chain r x' : graph_bind_rel g x chain = (r, x') -> r < 0 -> x' = x.
 Proof.
-  unfold graph_bind. intros H N.
+  unfold graph_bind_rel. intros H N.
   repeat match type of H with context [match ?e with _ => _ end] => destruct e end; inversion H; subst; auto; lia.
 Qed.
-Lemma bind_names_fst {A} (find : bytes -> option A) ws l : bind_names find ws = Some l -> map fst l = map Some ws.
+Lemma bind_failure g x r x' : graph_bind g x = (r, x') -> r < 0 -> x' = x.
+Proof. apply bind_failure_rel. Qed.
+Lemma bind_names_fst {A} (find : bytes -> option A) ws l : bind_names find ws = Some l ->
+  map fst l = map (fun w => Some (last_seg w)) ws.
 Proof.
   revert l. induction ws as [|w r IH]; intros l; cbn [bind_names]; [intros H; inversion H; reflexivity|].
   destruct (find w); [|discriminate]. destruct (bind_names find r) as [l0|] eqn:E; [|discriminate].
   intros H; inversion H; subst. cbn. rewrite (IH l0 eq_refl). reflexivity.
 Qed.
 Lemma bind_names_found {A} (find : bytes -> option A) ws l : bind_names find ws = Some l ->
-  Forall (fun nv => exists w, fst nv = Some w /\ find w = Some (snd nv)) l.
+  Forall (fun nv => exists w, fst nv = Some (last_seg w) /\ find w = Some (snd nv)) l.
 Proof.
   revert l. induction ws as [|w r IH]; intros l; cbn [bind_names]; [intros H; inversion H; constructor|].
   destruct (find w) eqn:F; [|discriminate]. destruct (bind_names find r) eqn:E; [|discriminate].
   intros H; inversion H; subst. constructor; [exists w; auto|apply IH; reflexivity].
 Qed.
 (* a successful bind with an "axes" name list binds exactly the named axis items, in the order of the list, each
-   under its name and with the item's properties *)
-Theorem bind_axes_named g x x' names : graph_bind g x = (1, x') -> gr_axes g = Some names ->
-  map fst (gx_axes x') = map Some (words names) /\
-  Forall (fun nv => exists w, fst nv = Some w /\ find_axis (gx_items x) w = Some (snd nv)) (gx_axes x').
+   under its name (the part behind a ':') and with the properties of the item the relation finds *)
+Theorem bind_axes_named_rel g x chain x' names : graph_bind_rel g x chain = (1, x') -> gr_axes g = Some names ->
+  map fst (gx_axes x') = map (fun w => Some (last_seg w)) (words names) /\
+  Forall (fun nv => exists w, fst nv = Some (last_seg w) /\ find_rel find_axis chain w = Some (snd nv)) (gx_axes x').
 Proof.
-  unfold graph_bind. intros H A. rewrite A in H.
-  destruct (bind_names (find_axis (gx_items x)) (words names)) as [al|] eqn:E; [|inversion H].
-  destruct (match gr_worlds g with None => Some (all_worlds (gx_items x)) | Some n => bind_names (find_world (gx_items x)) (words n) end);
-    inversion H; subst; cbn [gx_axes].
+  unfold graph_bind_rel. intros H A. rewrite A in H.
+  destruct (bind_names (find_rel find_axis chain) (words names)) as [al|] eqn:E; [|inversion H].
+  destruct (match gr_worlds g with None => Some (all_worlds (gx_items x)) | Some n => bind_names (find_rel find_world chain) (words n) end);
+    [|inversion H].
+  destruct (forallb _ (gx_items x)); inversion H; subst; cbn [gx_axes].
   split; [eapply bind_names_fst; eauto | eapply bind_names_found; eauto].
+Qed.
+Theorem bind_axes_named g x x' names : graph_bind g x = (1, x') -> gr_axes g = Some names ->
+  map fst (gx_axes x') = map (fun w => Some (last_seg w)) (words names) /\
+  Forall (fun nv => exists w, fst nv = Some (last_seg w) /\ find_rel find_axis [gx_items x] w = Some (snd nv)) (gx_axes x').
+Proof. apply bind_axes_named_rel. Qed.
+(* a name without '.' and ':' is looked up as it is and bound under itself *)
+Lemma plain_name w : existsb (N.eqb 46) w = false -> existsb (N.eqb 58) w = false -> find_key w = Some w /\ last_seg w = w.
+Proof.
+  intros D C. split.
+  - unfold find_key. assert (split_dot w = (w, None)) as S.
+    { clear C. induction w as [|c r IH]; [reflexivity|]. cbn [existsb] in D. apply orb_false_iff in D as [D1 D2].
+      cbn [split_dot]. rewrite N.eqb_sym, D1, (IH D2). reflexivity. }
+    rewrite S. reflexivity.
+  - destruct w as [|c r]; [reflexivity|]. cbn [existsb] in C. apply orb_false_iff in C as [C1 C2].
+    cbn [last_seg]. rewrite C2. rewrite N.eqb_sym, C1. reflexivity.
 Qed.
 
 (* ---- class layout (as patched) ---- *)
@@ -165,8 +202,22 @@ Definition xop_ok (p : xop) : Prop :=
   | XBase (OpGet _ _) => True
   | XBase (OpSp _ _ _ s) => wf_osrc s /\ not_value s
   | XCset _ _ t => wf_text t
+  | XTmeta _ t => wf_text t
   | _ => True
   end.
+
+(* the text of a metatype as mpt_string_pset stores it: the text itself (an empty one as an empty string) *)
+Lemma cstr_app_nul t : no_nul t = true -> cstr (app t [0%N]) = t.
+Proof.
+  induction t as [|c t IH]; [reflexivity|]. cbn [no_nul forallb]. intros H. apply andb_true_iff in H as [A B].
+  cbn [app cstr]. destruct (N.eqb c 0); [discriminate|]. rewrite (IH B). reflexivity.
+Qed.
+Lemma meta_string_text t : no_nul t = true -> meta_string t = Some t.
+Proof.
+  intros H. unfold meta_string, string_set.
+  replace (S (List.length t)) with (List.length (app t [0%N])) by (rewrite app_length; cbn; lia).
+  rewrite firstn_all. rewrite cstr_app_nul by assumption. reflexivity.
+Qed.
 
 Lemma upd_t_a st tb o g : xa (upd_t st tb o g) = (if tb then xa st else o).
 Proof. destruct tb; reflexivity. Qed.
@@ -174,14 +225,14 @@ Lemma upd_t_b st tb o g : xb (upd_t st tb o g) = (if tb then o else xb st).
 Proof. destruct tb; reflexivity. Qed.
 
 Theorem xstep_refines st p :
-  same_kind (xa st) (xb st) -> inv (xa st) -> inv (xb st) -> xop_ok p ->
+  same_kind (xa st) (xb st) -> inv (xa st) -> inv (xb st) -> strs_ok (xa st) -> strs_ok (xb st) -> xop_ok p ->
   fst (xsstep (kind_of (xa st)) (abs (xa st), abs (xb st)) p) =
   (abs (xa (fst (xstep st p))), abs (xb (fst (xstep st p)))).
 Proof.
-  intros K Ia Ib OK.
+  intros K Ia Ib Sa Sb OK.
   assert (same_kind (xb st) (xa st)) as K' by (unfold same_kind in *; congruence).
   assert (kind_of (xb st) = kind_of (xa st)) as KB by (unfold same_kind in *; congruence).
-  destruct p as [p|tb|tb|tb w t|tb q|tb|tb ia nm|tb ty nm pr t o|tb|tb].
+  destruct p as [p|tb|tb|tb w t|tb q|tb|tb ia nm|tb ty nm pr t o|tb|tb|tb|tb|tb|tb pos|tb pos|tb lg|tb t|tb|tb cx].
   - (* the common operations *)
     destruct p as [tb n s|tb n|tb fl n s]; cbn [xop_ok] in OK.
     + (* set *)
@@ -255,4 +306,211 @@ Proof.
   - destruct (xstep_pure st (XGitem tb ty nm pr t o) Logic.I) as [A B]. rewrite A, B. reflexivity.
   - destruct (xstep_pure st (XGbind tb) Logic.I) as [A B]. rewrite A, B. reflexivity.
   - destruct (xstep_pure st (XGtr tb) Logic.I) as [A B]. rewrite A, B. reflexivity.
+  - destruct (xstep_pure st (XGbindl tb) Logic.I) as [A B]. rewrite A, B. reflexivity.
+  - destruct (xstep_pure st (XGbindo tb) Logic.I) as [A B]. rewrite A, B. reflexivity.
+  - destruct (xstep_pure st (XGview tb) Logic.I) as [A B]. rewrite A, B. reflexivity.
+  - destruct (xstep_pure st (XGcyc tb pos) Logic.I) as [A B]. rewrite A, B. reflexivity.
+  - destruct (xstep_pure st (XGscyc tb pos) Logic.I) as [A B]. rewrite A, B. reflexivity.
+  - (* object::set(other object): the specification's copy *)
+    cbn [xstep xsstep].
+    destruct tb.
+    + destruct (object_set_refines lg (xb st) (xa st) Ib Sb Sa) as (A & _). rewrite KB in A.
+      destruct (object_set_from lg (xb st) (xa st)) as [r tg']. cbn [fst snd] in *. rewrite upd_t_a, upd_t_b. rewrite A. reflexivity.
+    + destruct (object_set_refines lg (xa st) (xb st) Ia Sa Sb) as (A & _).
+      destruct (object_set_from lg (xa st) (xb st)) as [r tg']. cbn [fst snd] in *. rewrite upd_t_a, upd_t_b. rewrite A. reflexivity.
+  - (* text::set(metatype) *)
+    cbn [xstep xsstep xop_ok] in *.
+    assert (meta_string (match t with Some b => b | None => [] end) = Some (match t with Some b => b | None => [] end)) as M.
+    { apply meta_string_text. destruct t; [exact OK|reflexivity]. }
+    destruct tb.
+    + rewrite <- KB. destruct (xb st) as [x|x|x|x|x] eqn:E; cbn [kind_of fst]; rewrite ?upd_t_a, ?upd_t_b; rewrite ?E; try reflexivity.
+      rewrite M. reflexivity.
+    + destruct (xa st) as [x|x|x|x|x] eqn:E; cbn [kind_of fst]; rewrite ?upd_t_a, ?upd_t_b; rewrite ?E; try reflexivity.
+      rewrite M. reflexivity.
+  - destruct (xstep_pure st (XTot tb) Logic.I) as [A B]. rewrite A, B. reflexivity.
+  - destruct (xstep_pure st (XPinfo tb cx) Logic.I) as [A B]. rewrite A, B. reflexivity.
+Qed.
+
+(* ---- what every step keeps: both objects of one kind, the invariant, strings that are C strings ---- *)
+Definition good (o : anyobj) : Prop := inv o /\ strs_ok o.
+Lemma good_set o other n s : same_kind o other -> wf_osrc s -> good o -> good other ->
+  good (snd (obj_set o n (resolve s other))) /\ kind_of (snd (obj_set o n (resolve s other))) = kind_of o.
+Proof.
+  intros K W (I & S) (IO & SO). repeat split.
+  - apply set_keeps_inv; assumption.
+  - apply set_keeps_strs; assumption.
+  - apply set_keeps_kind.
+Qed.
+Lemma good_sp o other fl n s : same_kind o other -> wf_osrc s -> good o -> good other ->
+  good (snd (set_property_op o other fl n s)) /\ kind_of (snd (set_property_op o other fl n s)) = kind_of o.
+Proof.
+  intros K W G GO. destruct (sp_obj o other fl n s) as [E|(src & E & ->)]; rewrite E; [auto|].
+  apply good_set; assumption.
+Qed.
+Lemma named_source_good o other c n : same_kind o other -> good o -> good other ->
+  good (snd (obj_set o (Some (c :: n)) (Some (cxx_named_source other)))) /\
+  kind_of (snd (obj_set o (Some (c :: n)) (Some (cxx_named_source other)))) = kind_of o.
+Proof.
+  intros K G GO. destruct other as [y|y|y|y|y]; cbn [cxx_named_source].
+  - exact (good_set o (OAxis y) (Some (c :: n)) XOther K Logic.I G GO).
+  - exact (good_set o (OLine y) (Some (c :: n)) XOther K Logic.I G GO).
+  - exact (good_set o (OText y) (Some (c :: n)) (XValue (VCol (c_a (tx_color y)) (c_r (tx_color y)) (c_g (tx_color y)) (c_b (tx_color y)))) K Logic.I G GO).
+  - exact (good_set o (OGraph y) (Some (c :: n)) (XValue (VCol (c_a (gr_fg y)) (c_r (gr_fg y)) (c_g (gr_fg y)) (c_b (gr_fg y)))) K Logic.I G GO).
+  - exact (good_set o (OWorld y) (Some (c :: n)) (XValue (VCol (c_a (wl_color y)) (c_r (wl_color y)) (c_g (wl_color y)) (c_b (wl_color y)))) K Logic.I G GO).
+Qed.
+Lemma good_default_strs n : strs_ok (default_of n).
+Proof. unfold strs_ok. rewrite defaults_match. apply defaults_ok. Qed.
+Lemma good_construct k arg : good (cxx_construct k arg).
+Proof.
+  split; [apply inv_construct|]. unfold strs_ok.
+  unfold cxx_construct. destruct arg as [z|].
+  - destruct (N.eqb k 0); [rewrite construct_axis_props; apply defaults_ok|].
+    destruct (N.eqb k 4); [rewrite construct_world_props; apply aput_ok; [apply defaults_ok|exact Logic.I]|].
+    rewrite cxx_new_defaults. apply defaults_ok.
+  - rewrite cxx_new_defaults. apply defaults_ok.
+Qed.
+
+Theorem xstep_keeps st p :
+  same_kind (xa st) (xb st) -> good (xa st) -> good (xb st) -> xop_ok p ->
+  same_kind (xa (fst (xstep st p))) (xb (fst (xstep st p))) /\ good (xa (fst (xstep st p))) /\ good (xb (fst (xstep st p))).
+Proof.
+  intros K Ga Gb OK.
+  assert (same_kind (xb st) (xa st)) as K' by (unfold same_kind in *; congruence).
+  assert (forall q, pure_op q -> same_kind (xa (fst (xstep st q))) (xb (fst (xstep st q))) /\
+                                 good (xa (fst (xstep st q))) /\ good (xb (fst (xstep st q)))) as PU.
+  { intros q PQ. destruct (xstep_pure st q PQ) as [A B]. rewrite A, B. auto. }
+  destruct p as [p|tb|tb|tb w t|tb q|tb|tb ia nm|tb ty nm pr t o|tb|tb|tb|tb|tb|tb pos|tb pos|tb lg|tb t|tb|tb cx];
+    try (apply PU; exact Logic.I).
+  - destruct p as [tb n s|tb n|tb fl n s]; cbn [xop_ok] in OK.
+    + cbn [xstep].
+      match goal with |- context [cxx_set_property ?o ?nm ?src] => rewrite (cxx_set_is_c o nm src) end.
+      assert (forall tg ot, same_kind tg ot -> good tg -> good ot ->
+                good (snd (obj_set tg n (match s with XOther => Some (if is_named n then cxx_named_source ot else SObj ot) | _ => resolve s ot end))) /\
+                kind_of (snd (obj_set tg n (match s with XOther => Some (if is_named n then cxx_named_source ot else SObj ot) | _ => resolve s ot end))) = kind_of tg) as G.
+      { intros tg ot KK G1 G2. destruct s as [|t0 o0|v|].
+        - exact (good_set tg ot n XReset KK OK G1 G2).
+        - exact (good_set tg ot n (XText t0 o0) KK OK G1 G2).
+        - exact (good_set tg ot n (XValue v) KK OK G1 G2).
+        - destruct n as [[|c n]|]; cbn [is_named].
+          + exact (good_set tg ot (Some []) XOther KK Logic.I G1 G2).
+          + apply named_source_good; assumption.
+          + exact (good_set tg ot None XOther KK Logic.I G1 G2). }
+      destruct tb.
+      * destruct (G (xb st) (xa st) K' Gb Ga) as (G1 & K1).
+        destruct (obj_set (xb st) n _) as [r tg'] eqn:E. cbn [fst snd] in *. rewrite upd_t_a, upd_t_b.
+        repeat split; try apply Ga; try apply G1. unfold same_kind in *. congruence.
+      * destruct (G (xa st) (xb st) K Ga Gb) as (G1 & K1).
+        destruct (obj_set (xa st) n _) as [r tg'] eqn:E. cbn [fst snd] in *. rewrite upd_t_a, upd_t_b.
+        repeat split; try apply Gb; try apply G1. unfold same_kind in *. congruence.
+    + cbn [xstep step]. cbn [fst xa xb]. auto.
+    + destruct OK as [W NV]. cbn [xstep step]. destruct tb.
+      * destruct (good_sp (xb st) (xa st) fl n s K' W Gb Ga) as (G1 & K1).
+        destruct (set_property_op (xb st) (xa st) fl n s) as [t b']. cbn [fst snd xa xb] in *.
+        repeat split; try apply Ga; try apply G1. unfold same_kind in *. congruence.
+      * destruct (good_sp (xa st) (xb st) fl n s K W Ga Gb) as (G1 & K1).
+        destruct (set_property_op (xa st) (xb st) fl n s) as [t a']. cbn [fst snd xa xb] in *.
+        repeat split; try apply Gb; try apply G1. unfold same_kind in *. congruence.
+  - (* struct copy *)
+    cbn [xstep fst]. rewrite upd_t_a, upd_t_b. destruct tb; repeat split; try apply Ga; try apply Gb; reflexivity.
+  - (* direct setters *)
+    cbn [xstep xop_ok] in *.
+    destruct (cxx_cset (if tb then xb st else xa st) w t) as [[r o']|] eqn:E; [|cbn [fst]; auto].
+    destruct (cset_refines _ _ _ _ _ OK E) as (pp & P & A & _).
+    assert (good o' /\ kind_of o' = kind_of (if tb then xb st else xa st)) as (G1 & K1).
+    { assert (strs_ok o') as S1.
+      { unfold strs_ok. rewrite A. apply aput_ok; [destruct tb; [apply Gb|apply Ga]|].
+        unfold ent_ok. cbn [snd]. exact (nonempty_ok t OK). }
+      unfold cxx_cset in E. destruct (if tb then xb st else xa st) as [x|x|x|x|x], w; try discriminate E; inversion E; subst;
+        (split; [split; [exact Logic.I|exact S1]|reflexivity]). }
+    cbn [fst]. rewrite upd_t_a, upd_t_b. destruct tb; repeat split; try apply Ga; try apply Gb; try apply G1;
+      unfold same_kind in *; congruence.
+  - (* object::set *)
+    cbn [xstep]. destruct tb.
+    + destruct (object_set_refines lg (xb st) (xa st) (proj1 Gb) (proj2 Gb) (proj2 Ga)) as (_ & I1 & S1 & K1).
+      destruct (object_set_from lg (xb st) (xa st)) as [r tg']. cbn [fst snd] in *. rewrite upd_t_a, upd_t_b.
+      repeat split; try apply Ga; try assumption. unfold same_kind in *. congruence.
+    + destruct (object_set_refines lg (xa st) (xb st) (proj1 Ga) (proj2 Ga) (proj2 Gb)) as (_ & I1 & S1 & K1).
+      destruct (object_set_from lg (xa st) (xb st)) as [r tg']. cbn [fst snd] in *. rewrite upd_t_a, upd_t_b.
+      repeat split; try apply Gb; try assumption. unfold same_kind in *. congruence.
+  - (* text::set(metatype) *)
+    cbn [xstep xop_ok] in *.
+    assert (meta_string (match t with Some b => b | None => [] end) = Some (match t with Some b => b | None => [] end)) as M.
+    { apply meta_string_text. destruct t; [exact OK|reflexivity]. }
+    assert (no_nul (match t with Some b => b | None => [] end) = true) as NN by (destruct t; [exact OK|reflexivity]).
+    destruct tb.
+    + destruct (xb st) as [x|x|x|x|x] eqn:E; cbn [fst]; rewrite ?upd_t_a, ?upd_t_b; rewrite ?E; auto.
+      rewrite M. repeat split; try apply Ga.
+      * unfold same_kind in *. rewrite K. reflexivity.
+      * destruct Gb as [_ SB]. unfold strs_ok in *.
+        change (abs (OText (set_tx_value (Some match t with Some b => b | None => [] end) x)))
+          with (aput (abs (OText x)) (bs "value") (PStr (Some match t with Some b => b | None => [] end))).
+        apply aput_ok; [exact SB|exact NN].
+    + destruct (xa st) as [x|x|x|x|x] eqn:E; cbn [fst]; rewrite ?upd_t_a, ?upd_t_b; rewrite ?E; auto.
+      rewrite M. repeat split; try apply Gb.
+      * unfold same_kind in *. rewrite <- K. reflexivity.
+      * destruct Ga as [_ SA]. unfold strs_ok in *.
+        change (abs (OText (set_tx_value (Some match t with Some b => b | None => [] end) x)))
+          with (aput (abs (OText x)) (bs "value") (PStr (Some match t with Some b => b | None => [] end))).
+        apply aput_ok; [exact SA|exact NN].
+Qed.
+
+(* ---- mpt_lattr_set ---- *)
+Theorem lattr_set4_spec a w st sy sz :
+  lattr_set4 a w st sy sz =
+  match spec_lattr4 w st sy sz with
+  | Some (w', st', sy', sz') => (SOk, mklattr st' w' sy' sz')
+  | None => (SFail BadValue, a)
+  end.
+Proof.
+  unfold lattr_set4, spec_lattr4, attr_value, LineWidthMax, LineStyleMax, SymbolTypeMax, SymbolSizeMax.
+  destruct (10 <? w); cbn [orb]; [reflexivity|].
+  destruct (5 <? st); cbn [orb]; [reflexivity|].
+  destruct (8 <? sy); cbn [orb]; [reflexivity|].
+  destruct (20 <? sz); cbn [orb]; [reflexivity|].
+  assert (forall v, (0 <=? v) = negb (v <? 0)) as E by (intros v; rewrite Z.leb_antisym; reflexivity).
+  rewrite !E. destruct (w <? 0), (st <? 0), (sy <? 0), (sz <? 0); reflexivity.
+Qed.
+
+(* ---- the whole-object query: an object that equals the default object in every member shows the documented defaults;
+   so a listed property away from its default is always reported as a change ---- *)
+Lemma col_eqb_eq a b : col_eqb a b = true -> a = b.
+Proof.
+  unfold col_eqb. intros H. repeat (apply andb_true_iff in H; destruct H as [H ?]).
+  destruct a, b; cbn in *. repeat match goal with X : N.eqb _ _ = true |- _ => apply N.eqb_eq in X end. congruence.
+Qed.
+Lemma lat_eqb_eq a b : lat_eqb a b = true -> a = b.
+Proof.
+  unfold lat_eqb. intros H. repeat (apply andb_true_iff in H; destruct H as [H ?]).
+  destruct a, b; cbn in *. repeat match goal with X : Z.eqb _ _ = true |- _ => apply Z.eqb_eq in X end. congruence.
+Qed.
+Lemma str_unset_eq s : str_unset s = true -> s = None.
+Proof. destruct s; [discriminate|reflexivity]. Qed.
+Ltac crack_default H :=
+  repeat (apply andb_true_iff in H; destruct H as [H ?]);
+  repeat match goal with
+         | X : N.eqb _ _ = true |- _ => apply N.eqb_eq in X
+         | X : Z.eqb _ _ = true |- _ => apply Z.eqb_eq in X
+         | X : col_eqb _ _ = true |- _ => apply col_eqb_eq in X
+         | X : lat_eqb _ _ = true |- _ => apply lat_eqb_eq in X
+         | X : str_unset _ = true |- _ => apply str_unset_eq in X
+         end.
+Theorem total_default o : obj_is_default o = true -> abs o = defaults (kind_of o).
+Proof.
+  destruct o as [x|x|x|x|x]; cbn [obj_is_default kind_of]; intros H; crack_default H;
+    destruct x; cbn in *;
+    repeat match goal with c : color |- _ => destruct c end;
+    repeat match goal with c : lattr |- _ => destruct c end;
+    cbn in *; unfold def_lattr, col_black in *;
+    repeat match goal with
+           | X : mklattr _ _ _ _ = mklattr _ _ _ _ |- _ => inversion X; clear X
+           | X : mkcol _ _ _ _ = mkcol _ _ _ _ |- _ => inversion X; clear X
+           end;
+    subst; reflexivity.
+Qed.
+Lemma all_default_defaults k : all_default k (defaults k) = true.
+Proof. destruct k; reflexivity. Qed.
+Theorem total_reports_change o : all_default (kind_of o) (abs o) = false -> pe_ret (obj_total o) = 1.
+Proof.
+  intros H. unfold obj_total. cbn [pe_ret]. destruct (obj_is_default o) eqn:D; [|reflexivity].
+  rewrite (total_default o D), all_default_defaults in H. discriminate.
 Qed.
